@@ -10,7 +10,8 @@ declaration, lock byte at location 2 (banks >= 1), optional latch snapshot.
   - WRITE MEMORY LOCATION(v): only when writing is enabled; stores v if the location is accessible, writable and
     (for lockable locations) the lock byte is 0x55, and answers v; otherwise answers nothing; DTR0 incremented
   - lock byte: RAM-RW; in a latching bank writing 0xAA takes a snapshot, any other value releases it
-Variant flags (property C10): stuck_dtr0, unlock value other than 0x55, echo of a different byte."""
+Variant flags (property C10): DTR0 failing to advance at any subset of steps, unlock value other than 0x55,
+echo of a different byte, storing a different byte."""
 from pyvc.spec import And, Or, Not, ite, type_of, is_instance
 from pyvc import sym
 from dali.gear import general as G
@@ -92,10 +93,12 @@ class MemoryUnit:
         return Or(conds) if conds else False
 
     def inc(self):
+        """DTR0 auto-increment; a faulty unit (variant) may fail to advance at any individual step"""
         if self.stuck_dtr0 is False:
             self.dtr0 = ite(self.dtr0 < 255, self.dtr0 + 1, 255)
         else:
-            self.dtr0 = ite(self.stuck_dtr0, self.dtr0, ite(self.dtr0 < 255, self.dtr0 + 1, 255))
+            stick = And(self.stuck_dtr0, self.ctx.fresh_bool("v_stick_at_step"))
+            self.dtr0 = ite(stick, self.dtr0, ite(self.dtr0 < 255, self.dtr0 + 1, 255))
 
     def step(self, cmd):
         t = type_of(cmd)
